@@ -66,7 +66,15 @@ def analyse_run(cfg, driver, props=PROPS, light=False):
             mach_issues, mach_stats, logs = analyse.machine_check(rec, driver)
         except Exception as ex:
             mach_issues = [dict(what='machine-harness-error', detail=repr(ex)[:300])]
-    out['machine'] = dict(issues=mach_issues, stats=mach_stats, logs=logs)
+    # the same run on the task model composed from the translated programs (skeleton + clip loop + sweep)
+    task_stats = {}
+    if observer and rec['error'] is None and cfg.get('objective') not in ('view0', 'view00', 'bufout'):
+        try:
+            t_issues, task_stats = analyse.task_check(rec, driver)
+            mach_issues = list(mach_issues) + t_issues
+        except Exception as ex:
+            mach_issues = list(mach_issues) + [dict(what='task-model-mismatch', op='harness-error', detail=repr(ex)[:300])]
+    out['machine'] = dict(issues=mach_issues, stats=mach_stats, logs=logs, task=task_stats)
     table = {
         'C01': lambda: analyse.oracle_c01(rec, driver),
         'C02': lambda: analyse.oracle_c02(rec),
